@@ -281,7 +281,7 @@ def main():
     runs = []
     samples = []
     if not any(k in ("harness-build",) for k, _ in fails) and os.path.exists(ctx.model if hasattr(ctx, "model") else "/nonexistent"):
-        hists, steps = (6, 300) if tier == "quick" else (64, 1200)
+        hists, steps = (16, 400) if tier == "quick" else (64, 1200)
         outputs = []
         # corpus first: committed replays of known and fixed findings, minimised past failures
         corpus = sorted(glob.glob(os.path.join(VERIF, "findings", "*.json")) + glob.glob(os.path.join(VERIF, "harness/corpus", "*.json")))
